@@ -380,6 +380,13 @@ def crystal(ctx):
              ('orthorhombic', 'orthorhombic', K('C11', 'C22', 'C33', 'C12', 'C13', 'C23', 'C44', 'C55', 'C66')),
              ('monoclinic', 'monoclinic', K('C11', 'C12', 'C13', 'C15', 'C22', 'C23', 'C25', 'C33', 'C35', 'C44', 'C46', 'C55', 'C66')),
              ('isotropic', 'isotropic', K('C11', 'C12'))]
+    # all three of C11, C12, C66 given (the documentation asks for "at least two"): accepted when they agree
+    def K3(*names):
+        d_ = K(*names)
+        d_['C66'] = (d_['C11'] - d_['C12']) / 2
+        return d_
+    cases += [('hexagonal', 'hexagonal', K3('C11', 'C12', 'C33', 'C13', 'C44')), ('rhombohedral', 'rhombohedral6', K3('C11', 'C12', 'C33', 'C13', 'C14', 'C44')),
+              ('rhombohedral', 'rhombohedral7', K3('C11', 'C12', 'C33', 'C13', 'C14', 'C44', 'C15'))]
     n = 0
     for method, gkey, kw in cases:
         n += 1
@@ -402,7 +409,7 @@ def crystal(ctx):
                 if not is_zero(C6[i, j] - symb, deep=False):
                     named_bad.append('%s is %s' % (nm, C6[i, j]))
         ctx.ob('CRYSTAL', loc, '%s: every given constant Cij is entry (i,j) of the matrix' % tag, not named_bad, '; '.join(named_bad), key=tag + ' named')
-    ctx.floor('CRYSTAL', n, 13)
+    ctx.floor('CRYSTAL', n, 16)
     # triclinic: all 21 land at their own place
     names = ['C%d%d' % (i + 1, j + 1) for i in range(6) for j in range(i, 6)]
     kw = {nm: sp.Symbol(nm, real=True) for nm in names}
